@@ -2676,3 +2676,132 @@ func c06R8(c *Ctx, r *Report) {
 			"the storage of an immutable dynamic array or map is handed to a mutable name without a copy: "+site.why)
 	}
 }
+
+// ---- C03.R12: dynamic array values vs. fixed-size targets --------------------------------------------------------
+
+func init() {
+	lateInits = append(lateInits, func() {
+		props["C03"].Quick = append(props["C03"].Quick, c03R12)
+		props["C18"].Quick = append(props["C18"].Quick, c03R12)
+		props["C03"].Explanation += " (R12) the []T-to-[N]T compatibility that array literals need is withdrawn for non-literal values at every site that checks a value against an expected type: assign-like positions, call arguments and returned values."
+	})
+}
+
+func c03R12(c *Ctx, r *Report) {
+	const rule = "C03.R12"
+	r.Describe(rule, "typechecker: checkAssignLike, validateCallArgumentTypes and the return-statement check each override the computed compatibility with a helper that recognises (dynamic array type, fixed array type, non-literal expression)")
+	var helper *Fn
+	for _, fn := range c.AllFns(pkgTC) {
+		sig := fn.Obj.Type().(*types.Signature)
+		if sig.Params().Len() != 3 || sig.Results().Len() != 1 {
+			continue
+		}
+		if b, ok := sig.Results().At(0).Type().Underlying().(*types.Basic); !ok || b.Kind() != types.Bool {
+			continue
+		}
+		info := fn.Info()
+		arr, lit := 0, false
+		ast.Inspect(fn.Decl.Body, func(x ast.Node) bool {
+			if ta, ok := x.(*ast.TypeAssertExpr); ok && ta.Type != nil {
+				s := exprStr(ta.Type)
+				if strings.HasSuffix(s, "types.ArrayType") {
+					arr++
+				}
+				if strings.HasSuffix(s, "ast.CompositeLit") {
+					lit = true
+				}
+			}
+			return true
+		})
+		_ = info
+		if arr >= 2 && lit {
+			helper = fn
+		}
+	}
+	if helper == nil {
+		r.Fail(rule, "semantics/typechecker", "dynamic array values are not compatible with fixed-size arrays", "-",
+			"there is no check that tells an array literal from a dynamic array value: `let d := [1, 2, 3]; let fx: [3]i32 = d` is accepted and fx reads the bytes of the runtime handle")
+		return
+	}
+	for _, site := range []string{"checkAssignLike", "validateCallArgumentTypes"} {
+		fn := c.LookupFn(pkgTC, site)
+		if !r.Anchor(rule, fn != nil, "typechecker."+site) {
+			continue
+		}
+		r.Check(nodeCallsDeep(fn.Info(), fn.Decl.Body, helper.Obj), rule, fn.Name(), "a non-literal []T is rejected for a [N]T target", c.pos(fn.Decl.Pos()),
+			"this site accepts a dynamic array value where a fixed-size array is expected: the handle's bytes are read as elements")
+	}
+	// the return statement check: whichever function reports "type mismatch in return statement"
+	found := false
+	for _, fn := range c.AllFns(pkgTC) {
+		info := fn.Info()
+		isRet := false
+		ast.Inspect(fn.Decl.Body, func(x ast.Node) bool {
+			if bl, ok := x.(*ast.BasicLit); ok {
+				if v := constOf(info, bl); v != nil && v.Kind() == constant.String && constant.StringVal(v) == "type mismatch in return statement" {
+					isRet = true
+				}
+			}
+			return true
+		})
+		if !isRet {
+			continue
+		}
+		found = true
+		r.Check(nodeCallsDeep(info, fn.Decl.Body, helper.Obj), rule, fn.Name(), "a non-literal []T is rejected for a [N]T return type", c.pos(fn.Decl.Pos()),
+			"a function returning [N]T may return a dynamic array value")
+	}
+	r.Anchor(rule, found, "typechecker: return statement check")
+}
+
+// ---- C01.R14: intrinsic builtins agree between collector and MIR lowering -----------------------------------------
+
+func init() {
+	lateInits = append(lateInits, func() {
+		props["C01"].Quick = append(props["C01"].Quick, c01R14)
+		props["C01"].Explanation += " (R14) every builtin name MIR lowering treats as an intrinsic (the cases of lowerCall's builtin switch) is marked IsBuiltin by the collector (isIntrinsicBuiltin), and vice versa."
+	})
+}
+
+func c01R14(c *Ctx, r *Report) {
+	const rule = "C01.R14"
+	r.Describe(rule, "collector.isIntrinsicBuiltin's case list = the string cases of the builtin switch in mir/gen lowerCall")
+	isb := c.LookupFn("internal/semantics/collector", "isIntrinsicBuiltin")
+	lc := c.LookupFn(pkgMIRGen, "(*functionBuilder).lowerCall")
+	if !r.Anchor(rule, isb != nil && lc != nil, "collector.isIntrinsicBuiltin / mir/gen lowerCall") {
+		return
+	}
+	strCases := func(fn *Fn) map[string]bool {
+		out := map[string]bool{}
+		info := fn.Info()
+		ast.Inspect(fn.Decl.Body, func(x ast.Node) bool {
+			if cc, ok := x.(*ast.CaseClause); ok {
+				for _, e := range cc.List {
+					if v := constOf(info, e); v != nil && v.Kind() == constant.String {
+						out[constant.StringVal(v)] = true
+					}
+				}
+			}
+			return true
+		})
+		return out
+	}
+	coll, low := strCases(isb), strCases(lc)
+	names := map[string]bool{}
+	for k := range coll {
+		names[k] = true
+	}
+	for k := range low {
+		names[k] = true
+	}
+	keys := make([]string, 0, len(names))
+	for k := range names {
+		keys = append(keys, k)
+	}
+	sort.Strings(keys)
+	for _, k := range keys {
+		r.Check(coll[k] && low[k], rule, "builtin "+k, "marked intrinsic by the collector and lowered as an intrinsic", c.pos(isb.Decl.Pos()),
+			fmt.Sprintf("builtin %q: collector intrinsic=%v, MIR intrinsic=%v — a builtin the collector treats as an ordinary extern is called by its plain name, which no runtime defines (`panic(\"boom\")` fails to link: undefined reference to panic)", k, coll[k], low[k]))
+	}
+	r.Floor(rule, len(keys), 3, "intrinsic builtins")
+}
